@@ -51,7 +51,7 @@ PROPS = {
             "technique": "Lean 4 proof (inductive invariant of a transition system) + schedule replay / differential correspondence"},
         "lean": ["NbioVerif.Properties.C05"], "drivers": ["jobqdrv"], "harness": ["hjobq"],
         "runs": [JOBQ_RUN],
-        "cs": [cs_conc.cs_conn_submit, cs_conc.cs_conn_drainer, cs_conc.cs_nbhttp_close_routed],
+        "cs": [cs_conc.cs_conn_submit, cs_conc.cs_conn_drainer, cs_conc.cs_conn_close_flip, cs_conc.cs_nbhttp_close_routed],
         "search": search_c05,
         "oracles": ["c05-"],
         "rule": "case = (executor kind, #conns, schedule of submit / spawn / finish(panic) / close / burst ops); distinct by hash of "
